@@ -21,6 +21,12 @@ TWIN0 = bytes([0x02, 0x15, 0x5d, 0x3a, 0x7c, 0x91])
 # stations that differ from TWIN0 in exactly one octet each (an address comparison that skips or folds octets confuses them)
 TWINS = [TWIN0] + [twin(TWIN0, p_) for p_ in range(6)]
 
+def add_hints(pairs):
+    """address pairs that the tree's own address comparison confuses (bin/leafcheck.py): join the twin pool in place"""
+    for a, b in pairs:
+        for x in (bytes.fromhex(a), bytes.fromhex(b)):
+            if x not in TWINS: TWINS.append(x)
+
 def hx(b):
     return b.hex() if b else '-'
 
